@@ -68,7 +68,7 @@ mod verif_c13s {
         kani::assume(m < (1usize << n));
         assert!(l.num_vars() == n);
         assert!(bit(l.blocks(), m) == spec_value::<K>(&terms, m));
-        assert!(l.blocks()[0] >> (1usize << n) == 0 || n >= 6);
+        assert!(n >= 6 || l.blocks()[0] >> (1usize << n) == 0);
         kani::cover!(bit(l.blocks(), m) || K == 0, "post-reached");
     }
 
@@ -116,4 +116,8 @@ mod verif_c13s {
     h!(c13t_soes_or_k3k2_n5, 7, or_k::<3, 2>(5));
     h!(c13t_soes_lut_k4_n5, 34, to_lut_k::<4>(5));
     h!(c13t_soes_value_k4_n5, 7, value_k::<4>(5));
+    // cross-word sizes: one symbolic term over 7 / 8 variables (the word index takes part in the parity)
+    h!(c13q_soes_lut_k1_n7, 132, to_lut_k::<1>(7));
+    h!(c13q_soes_lut_k1_n8, 260, to_lut_k::<1>(8));
+    h!(c13t_soes_lut_k2_n8, 260, to_lut_k::<2>(8));
 }
